@@ -142,7 +142,7 @@ def node_at(spec: dict, path: Tuple) -> dict:
     return n
 
 
-def decorate(rng: random.Random, tree: dict, density: float = 0.55) -> List[dict]:
+def decorate(rng: random.Random, tree: dict, density: float = 0.55, self_range_p: float = 0.3) -> List[dict]:
     """add phase-1 constraints `lhs <= K0` (K0 unique, huge) to the constrainable nodes of tree['spec'];
     returns the constraint records; tree['values'] gains the new top level names"""
     spec, values = tree['spec'], tree['values']
@@ -157,6 +157,33 @@ def decorate(rng: random.Random, tree: dict, density: float = 0.55) -> List[dict
 
     def small():
         return F(rng.randrange(-16, 17), 8)
+
+    # loop ranges that mention the loop's own index name: the range is evaluated in the OUTER scope, so the name is
+    # an ordinary external parameter there (given at top level or produced by the innermost enclosing mapping)
+    for path, node, names, maps in nodes:
+        if node['k'] != 'for' or rng.random() >= self_range_p:
+            continue
+        idx = node['idx']
+        if idx in values:
+            continue
+        if rng.random() < 0.4:
+            v = rng.choice([0, 1, 2, 3])
+            node['range'] = ['0', idx, '1']                      # `for i in range(i)`
+        else:
+            v = rng.randrange(-3, 8)
+            pos = rng.randrange(3)
+            node['range'] = list(node['range'])
+            node['range'][pos] = '%s + %s - %d' % (node['range'][pos], idx, v) if v >= 0 else \
+                                 '%s + %s + %d' % (node['range'][pos], idx, -v)
+        if maps and rng.random() < 0.4:
+            y = fresh('y')
+            m = maps[-1]
+            m['pm'] = list(m.get('pm') or [])
+            m['pm'].append([idx, '%s + 1' % y])
+            values[y] = v - 1
+        else:
+            values[idx] = v
+        node['self_range'] = True
 
     for path, node, names, maps in nodes:
         if node['k'] not in CONSTRAINABLE:
@@ -645,6 +672,9 @@ def assess(ctx: core.Ctx, rec: dict, count=True) -> Tuple[List[dict], List[str],
             ctx.count('extra:grid-points-compared', rec.get('grid_points', 0))
         if rec['nested_map']:
             ctx.count('with-mapping-below-mapping')
+        if any(n.get('self_range') for n in ptgen.spec_nodes(rec['case']['spec'])) or \
+                rec['case'].get('label', '').startswith('self-range'):
+            ctx.count('with-loop-range-naming-its-own-index')
         if rec.get('needs_more'):
             ctx.count('missing:implementation-needs-more-than-model')
     return viols, diffs, known
@@ -865,6 +895,33 @@ def exhaustive_cases() -> List[dict]:
                         spec = node
                     out.append({'spec': spec, 'params': params, 'cm': {}, 'mm': None, 'stream': 'exhaustive',
                                 'label': '%s/%s/%s/%s' % (kind, ctxname, rel, off)})
+    out.extend(self_range_cases())
+    return out
+
+
+def self_range_cases() -> List[dict]:
+    """iterations whose range (start / stop / step) names the loop's own index — `for n in range(n)`: the range is
+    evaluated outside the loop, so the name is an external parameter — alone, below sequence / repetition /
+    mapping parents, with the name mapped by an enclosing mapping; instantiated with exactly the declared names"""
+    out = []
+    pool = {'a': 0.25, 'n': 2, 'm': 3, 'k': 2, 'c': 1}
+    ranges = {'stop': ['0', 'n', '1'], 'start': ['n', 'm', '1'], 'step': ['0', 'm', 'n'], 'expr': ['0', '2*n - 1', '1'],
+              'all': ['n - 2', 'n + 1', 'n - 1']}
+    for rname, r in ranges.items():
+        loop = {'k': 'for', 'body': _atom(val='a + n'), 'idx': 'n', 'range': list(r), 'meas': [], 'cons': []}
+        parents = {
+            'plain': loop,
+            'seq': {'k': 'seq', 'subs': [loop, _atom()], 'meas': [], 'cons': []},
+            'rep': {'k': 'rep', 'body': loop, 'count': 'c', 'meas': [], 'cons': []},
+            'map-other': {'k': 'map', 'body': loop, 'pm': [['a', 'a']], 'mm': None, 'cm': None, 'cons': []},
+            'map-index': {'k': 'map', 'body': loop, 'pm': [['n', 'k']], 'mm': None, 'cm': None, 'cons': []},
+            'for': {'k': 'for', 'body': {'k': 'seq', 'subs': [loop, _atom(val='a + j')], 'meas': [], 'cons': []},
+                    'idx': 'j', 'range': ['0', '2', '1'], 'meas': [], 'cons': []},
+            'cons': dict(loop, cons=['n <= 2']),
+        }
+        for pname, spec in parents.items():
+            out.append({'spec': copy.deepcopy(spec), 'params': {}, 'param_pool': pool, 'cm': {}, 'mm': None,
+                        'stream': 'exhaustive', 'label': 'self-range/%s/%s' % (rname, pname)})
     return out
 
 
@@ -916,7 +973,8 @@ def run(ctx: core.Ctx):
     ex = exhaustive_cases()
     ctx.exhaustive_spaces.append('8 constrainable node kinds x 6 contexts (plain, below a renaming mapping, below an iteration '
                                  'using the index, below repetition 0 / 2, inside an atomic template) x 3 relations x constant '
-                                 'below / on / above the boundary: %d cases' % len(ex))
+                                 'below / on / above the boundary, plus iterations whose range names the '
+                                 'loop\'s own index (5 range shapes x 7 parents): %d cases' % len(ex))
     recs = [r for r in _pool_map(ctx, evaluate_case, ex) if r is not None]
     # random trees: phase A (draw + probe), phase B (streams)
     depth = 4 if ctx.quick else 5
